@@ -65,8 +65,21 @@ fn color_space(c: &CsSpec) -> ColorSpace {
         CsSpec::Rgb => ColorSpace::DeviceRGB,
         CsSpec::Cmyk => ColorSpace::DeviceCMYK,
         CsSpec::Indexed { cmyk_base, hival, lookup } => ColorSpace::Indexed(Box::new(if *cmyk_base { ColorSpace::DeviceCMYK } else { ColorSpace::DeviceRGB }), *hival, Arc::from(lookup.clone())),
+        CsSpec::Gray => ColorSpace::DeviceGray,
+        CsSpec::PatternCs => ColorSpace::Pattern,
+        CsSpec::Named(n) => ColorSpace::Named(Name::from(n.as_str())),
+        CsSpec::CalRgb { gamma } => ColorSpace::CalRGB(cal_dict(*gamma)),
+        CsSpec::CalGray => ColorSpace::CalGray(cal_dict(false)),
+        CsSpec::Lab => ColorSpace::Other(vec![Primitive::name("Lab"), Primitive::Dictionary(cal_dict(false))]),
     }
 }
+fn cal_dict(gamma: bool) -> Dictionary {
+    let mut d = Dictionary::new();
+    d.insert("WhitePoint", Primitive::Array(vec![Primitive::Number(0.9505), Primitive::Integer(1), Primitive::Number(1.089)]));
+    if gamma { d.insert("Gamma", Primitive::Array(vec![Primitive::Number(2.2), Primitive::Number(2.2), Primitive::Number(2.2)])); }
+    d
+}
+fn dict_eq(a: &Dictionary, b: &Dictionary) -> bool { crate::opsgen::prim_eq(&Primitive::Dictionary(a.clone()), &Primitive::Dictionary(b.clone())) }
 
 fn make_resources(u: &mut impl Updater, page: usize, r: &ResSpec, made: &mut Made) -> Result<Resources, Fail> {
     let mut res = Resources::default();
@@ -288,6 +301,11 @@ fn cmp_resources(page: usize, spec: &ResSpec, made: &Made, res: &Resources, reso
             let ok = match (c, g) {
                 (CsSpec::Rgb, ColorSpace::DeviceRGB) | (CsSpec::Cmyk, ColorSpace::DeviceCMYK) => true,
                 (CsSpec::Indexed { cmyk_base, hival, lookup }, ColorSpace::Indexed(b, h, l)) => h == hival && &l[..] == &lookup[..] && matches!((&**b, cmyk_base), (ColorSpace::DeviceCMYK, true) | (ColorSpace::DeviceRGB, false)),
+                (CsSpec::Gray, ColorSpace::DeviceGray) | (CsSpec::PatternCs, ColorSpace::Pattern) => true,
+                (CsSpec::Named(n), ColorSpace::Named(m)) => n.as_str() == m.as_str(),
+                (CsSpec::CalRgb { gamma }, ColorSpace::CalRGB(d)) => dict_eq(d, &cal_dict(*gamma)),
+                (CsSpec::CalGray, ColorSpace::CalGray(d)) => dict_eq(d, &cal_dict(false)),
+                (CsSpec::Lab, ColorSpace::Other(v)) => v.len() == 2 && matches!(&v[0], Primitive::Name(n) if n.as_str() == "Lab") && matches!(&v[1], Primitive::Dictionary(d) if dict_eq(d, &cal_dict(false))),
                 _ => false,
             };
             if !ok { out.push(("wrong-resource-content", format!("page {} colour space /{}: {:?}, expected {:?}", page, name, g, c))); }
